@@ -37,7 +37,7 @@ Base == Piece(<< Component("User", "Card", <<>>, <<Scalar("name"), Scalar("age")
               << "src/user/card.ts", "src/home.ts", "src/home.ts" >>)
 
 FeatureNames == << "nobabel", "sameName", "refetch", "pet", "loadable", "mutation", "dupEp", "dupEpWs", "xField", "xEp", "xParse", "xParse2",
-                   "xDup", "xLazy", "xType", "xDupSame" >>
+                   "xDup", "xLazy", "xType", "xDupSame", "xUnused3", "xMissing2", "xExtra2", "xMany" >>
 
 Feature(f) ==
   CASE f = "nobabel" ->   \* options.no_babel_transform = true: iso.ts switches on the entrypoint literal TEXT
@@ -89,8 +89,21 @@ Feature(f) ==
          Piece(<< Tagged(Field("User", "Twice", <<>>, <<Scalar("name")>>), "a"),
                   Tagged(Field("User", "Twice", <<>>, <<Scalar("age")>>), "b") >>,
                << "src/twice.ts", "src/twice.ts" >>)
+    \* diagnostics that LIST several items, and several diagnostics from one declaration (added after
+    \* seeded/C14-unused-variables-through-hashset: the order INSIDE one diagnostic's text was never exercised)
+    [] f = "xUnused3" ->    \* three unused variables: one diagnostic naming all three
+         Piece(<< Field("Query", "Unused3", << VarDef("va", Named("Int")), VarDef("vb", Named("Int")), VarDef("vc", Named("Int")) >>,
+                        << Linked("me", <<Scalar("name")>>) >>) >>, << "src/bad/unused3.ts" >>)
+    [] f = "xMissing2" ->   \* two required arguments missing
+         Piece(<< Field("Mutation", "Missing2", <<>>, << Linked("setName", <<Scalar("name")>>) >>) >>, << "src/bad/missing2.ts" >>)
+    [] f = "xExtra2" ->     \* three undefined arguments
+         Piece(<< Field("Query", "Extra2", <<>>,
+                        << LinkedA("me", "", << <<"foo", IntV("1")>>, <<"bar", IntV("2")>>, <<"baz", IntV("3")>> >>, <<Scalar("name")>>) >>) >>,
+               << "src/bad/extra2.ts" >>)
+    [] f = "xMany" ->       \* three undefined fields in one selection set: three diagnostics from one declaration
+         Piece(<< Field("Query", "Many", <<>>, << Linked("me", <<Scalar("nope1"), Scalar("nope2"), Scalar("nope3")>>) >>) >>, << "src/bad/many.ts" >>)
 
-IsInvalidFeature(f) == f \in {"xField", "xEp", "xParse", "xParse2", "xDup", "xLazy", "xType", "xDupSame"}
+IsInvalidFeature(f) == f \in {"xField", "xEp", "xParse", "xParse2", "xDup", "xLazy", "xType", "xDupSame", "xUnused3", "xMissing2", "xExtra2", "xMany"}
 
 RECURSIVE Join(_)
 Join(s) == IF s = <<>> THEN "" ELSE "+" \o Head(s) \o Join(Tail(s))
